@@ -541,6 +541,7 @@ func (c *Client) doRountrip(ctx context.Context, msg *kmip.RequestMessage) (*kmi
 			// The client has been closed while the call was pending: do not reconnect.
 			return nil, net.ErrClosed
 		}
+		verifYield("cli.beforeReconnect", c)
 		if err := c.reconnect(ctx); err != nil {
 			return nil, err
 		}
